@@ -381,7 +381,7 @@ func (w *World) RelTS(ts int64) (v int, big bool) {
 	if d > 0 {
 		return lim + int(d>>36), true
 	}
-	return -lim - int((-(d+1))>>36) - 1, true
+	return -lim - int((-(d + 1))>>36) - 1, true
 }
 
 // ---------------------------------------------------------------- trace output
